@@ -6,7 +6,7 @@
    Ops.read_partial. *)
 From Coq Require Import QArith.
 From HS Require Import Prelude Cov Map Spec Ops Spec2 Params AtFold MapProofs UpdateProofs HistoryProofs
-     LayoutProofs AccountProofs OpsProofs PartialProofs Exec Exec2 ExecProofs PartialRefine.
+     LayoutProofs AccountProofs OpsProofs PartialProofs Exec Exec2 ExecProofs PartialRefine Packed FileRows.
 Open Scope Z_scope.
 
 Section C03.
@@ -65,8 +65,36 @@ Proof.
   - intros pv [<-|[<-|[<-|[]]]]; (split; [apply Z.leb_le|apply Z.ltb_lt]; vm_compute; reflexivity).
 Qed.
 
+(* ---- the row arithmetic of partial reads on the flattened SPARSE extension ---- *)
+(* units of constant width w (a wide-mask cell = its wmult bytes; a byte = its 8 bit-packed cells): the raw slice
+   [a*w, b*w) of the flattened storage is the flattening of the unit slice [a, b): the rows fetched for a block
+   are exactly that block's cells *)
+Theorem C03_rows_fetched_for_a_block_are_its_cells :
+  forall (A B : Type) (f : A -> list B) (w : Z) (dA : A) (dB : B),
+    0 < w -> (forall x, zlen (f x) = w) ->
+    forall (l : list A) (a b : Z), 0 <= a <= b -> b <= zlen l ->
+      zslice (flat_map f l) (a * w) (b * w) = flat_map f (zslice l a b).
+Proof. intros A B f w dA dB Hw Hf l a b. exact (rows_of_a_block f w dA dB Hw Hf l a b). Qed.
+
+Theorem C03_wide_mask_block_rows :
+  forall (width : Z) (row : Z -> list Z) (cells : list Z) (off nfine : Z),
+    0 < width -> (forall c, zlen (row c) = width) ->
+    0 <= off -> 0 <= nfine -> off + nfine <= zlen cells ->
+    zslice (flat_map row cells) (off * width) ((off + nfine) * width) = flat_map row (zslice cells off (off + nfine)).
+Proof. exact wide_block_rows. Qed.
+
+Theorem C03_bit_packed_block_rows :
+  forall (bytes : list Z) (off nfine : Z),
+    0 <= off -> 0 <= nfine -> off mod 8 = 0 -> nfine mod 8 = 0 -> off + nfine <= 8 * zlen bytes ->
+    flat_map unpack8 (zslice bytes (off / 8) ((off + nfine) / 8)) =
+    zslice (flat_map unpack8 bytes) off (off + nfine).
+Proof. exact packed_block_rows. Qed.
+
 Print Assumptions C03_partial_read_is_the_restriction.
 Print Assumptions C03_partial_read_rejected_iff_nothing_covered.
 Print Assumptions C03_full_read_is_the_same_state.
 Print Assumptions C03_partial_read_refines_the_restriction.
 Print Assumptions C03_hypotheses_satisfiable.
+Print Assumptions C03_rows_fetched_for_a_block_are_its_cells.
+Print Assumptions C03_wide_mask_block_rows.
+Print Assumptions C03_bit_packed_block_rows.
